@@ -48,5 +48,5 @@ CLAIM = {
             "thorough, over one-family reduced universes). Every public method taking an entity, index or name (174 entry points listed from the headers) is called with null / never-added / owner-destroyed / one-past-the-end / "
             "unknown-name arguments in a forked child and must refuse without crash or change. Exploration: finds wrong-sibling, cycle, double-listing and crash defects; cannot show absence beyond the enumerated bounds.",
     "note": "Trusts the harness's containment model, equals() (used only to decide which outcomes are allowed for structurally equal operands) and the kit's canonical dump. "
-            "Adding an entity to the container that already holds it is outside the claim and never generated. Known defects are listed per (operation, operand relation) in known.d/C09.json.",
+            "Adding an entity to the container that already holds it is outside the claim and never generated. Known defects are listed per (operation, operand relation) in known_findings.json.",
 }
